@@ -32,6 +32,8 @@ Definition store_read (s : store) (thread : N) : stat_cfg := s.
     already running (and had read the configuration) before; building an entry on either thread (no
     panic) and the geometry of the node that was created there *)
 Definition zN (n : N) : Z := Z.of_N n.
+(** the built-in defaults: 20 x 500 ms ring, metric window 2 x 500 ms *)
+Definition default_stat_cfg : stat_cfg := mkSC 20 10000 2 1000.
 Definition cfg_values (c : stat_cfg) : list Z := [zN (sc_total c); zN (iv_total c); zN (sc_metric c); zN (iv_metric c)].
 Definition node_obs (c : stat_cfg) : list Z :=
   match node_new c with
@@ -43,4 +45,4 @@ Definition cfg_obs (c : stat_cfg) : list Z :=
     1%Z :: cfg_values (store_read (store_init c) 0) ++ cfg_values (store_read (store_init c) 1)
         ++ cfg_values (store_read (store_init c) 2)
         ++ node_obs (store_read (store_init c) 0) ++ node_obs (store_read (store_init c) 1)
-  else [0%Z].
+  else 0%Z :: cfg_values default_stat_cfg.        (* rejected: the configuration in effect is still the default one *)
